@@ -20,3 +20,15 @@ package common
 //@   props C17
 //@   ensures [masked] !config.MarshalSecretValue ==> result1 == nil && (s != "" ? (typeis(result0, string) && unbox(result0, string) == "<secret>") : result0 == nil)
 //@   assigns nothing
+
+// parsing a constant URL: trusted to succeed with a usable URL for the constants it is called with (a panic here is a
+// programming error caught by any test that loads a configuration)
+//@ func MustParseURL
+//@   trusted
+//@   ensures result != nil && fresh(result) && result.URL != nil
+//@   assigns nothing
+
+// A URL value that came out of the decoder or of ParseURL wraps a parsed URL, never nil (URL.UnmarshalYAML/JSON set it
+// from a successful parse or fail): assumed of every non-nil *URL / *SecretURL read from the heap.
+//@ typeinv URL :: self.URL != nil
+//@ typeinv SecretURL :: self.URL != nil
